@@ -360,3 +360,39 @@ func init() {
 		},
 	}
 }
+
+func init() {
+	props["C14"] = &PropSpec{
+		ID: "C14",
+		Jobs: func(tier string) []*Job {
+			var js []*Job
+			maxK := 2
+			if tier == "thorough" {
+				maxK = 3
+			}
+			for k := 1; k <= maxK; k++ {
+				for v := 0; v < 3; v++ {
+					js = append(js, &Job{Harness: "C14Seq", Params: map[string]int{"k": k, "variant": v}})
+				}
+				js = append(js, &Job{Harness: "C14AB", Params: map[string]int{"k": k}})
+			}
+			for v := 0; v < 2; v++ {
+				js = append(js, &Job{Harness: "C14Caps", Params: map[string]int{"variant": v}})
+			}
+			return js
+		},
+		Bounds: func(tier string) string {
+			k := 2
+			if tier == "thorough" {
+				k = 3
+			}
+			return fmt.Sprintf("every sequence of k<=%d calls among WriteHeader(code in 100..999, solver-chosen), Write/WriteString of 0..3 bytes, ReadFrom of a 0..3-byte source ending in EOF or an error, FlushError; the underlying writer accepts a solver-chosen number of the offered bytes and fails or not (solver-chosen); underlying writer variants: plain, +ReaderFrom/FlushError/Pusher/Hijacker/deadlines/full-duplex, classic Flusher; A/B of plain vs rich on the same choices; each optional capability once with and without support; Blob/Stream/String with solver-chosen status and 0..3 bytes; Redirect with every code 0..999", k)
+		},
+		RequiredCovers: []string{"informational header", "short write", "ReadFrom", "ReadFrom of an empty source", "A/B compared", "redirect accepted", "redirect refused"},
+		Assumptions: []string{
+			"the underlying writer obeys the http.ResponseWriter contract deterministically: an explicit WriteHeader is forwarded as is; a Write without prior final header implies a forwarded 200 even for zero accepted bytes; its ReadFrom forwards the implicit 200 with the first byte it accepts and nothing for an empty source or when it accepts no byte (only under that contract can the recorder know what was sent)",
+			"A/B excludes sequences containing FlushError (refused without flusher) and a non-empty ReadFrom of which no byte is accepted",
+			"status codes below 100 are outside the bound (net/http panics on them); log.Printf and runtime.Callers are stubs; real net/http writers (chunking, HTTP/2) are outside the claim",
+		},
+	}
+}
